@@ -8,7 +8,7 @@ mutants of the corpus (Mutate.tla) — mostly invalid programs, which exercise t
 diagnostic paths of stage 2.  The merged run log is validated by TLC against
 spec/Stage.tla (flow B).
 """
-import hashlib, json, os, subprocess
+import hashlib, json, os, subprocess, time, sys
 import vlib, stage2, mutate
 
 
@@ -95,6 +95,29 @@ def run(ctx):
             inputs.append(("corpus:%s" % os.path.basename(p), p, None, targ, "E"))
     for pid, p, t, mode in vlib.pool_items():
         inputs.append(("pool:%s:%s" % (pid, os.path.basename(p)[:12]), p, None, t, mode))
+    # inputs every other property's generator fed to the compiler (harvested once with VERIF_HARVEST, see corpus/README):
+    # boundary values of literals, types, layouts, initialisers, scopes, macros, diagnostics ... reach code of the compiler
+    # that its own sources and the regression corpus do not
+    hv = os.path.join(vlib.VERIF, "corpus", "pool.tar.xz")
+    if os.path.exists(hv):
+        hd = ctx.path("harvest")
+        os.makedirs(hd)
+        r = subprocess.run(["tar", "-xJf", hv, "-C", hd], capture_output=True)
+        if r.returncode != 0:
+            raise vlib.MachineryError("cannot unpack corpus/pool.tar.xz: %s" % r.stderr[-500:])
+        cap = 2500 if ctx.quick else 1 << 30
+        nh = 0
+        for d in sorted(os.listdir(hd)):
+            nbytes = 0
+            for fn in sorted(os.listdir(os.path.join(hd, d)))[:cap]:
+                base = fn[:-2].split("+")
+                nbytes += os.path.getsize(os.path.join(hd, d, fn))
+                if ctx.quick and nbytes > 6000000:
+                    break
+                if len(base) == 3:
+                    inputs.append(("harvest:%s:%s" % (d, base[0][:12]), os.path.join(hd, d, fn), None, base[1], base[2]))
+                    nh += 1
+        ctx.cov["harvested_inputs"] = nh
     for src, t in constexpr_inputs(ctx):
         inputs.append(("constexpr:%s" % h(src)[:8], None, src, t, "c"))
     nmut = 800 if ctx.quick else 8000
@@ -120,7 +143,9 @@ def run(ctx):
                         "_err": err[:300]})
         return res
 
+    t0 = time.time()
     results = vlib.pmap(both, work)
+    ctx.cov["seconds_running_both_stages"] = round(time.time() - t0, 1)
     log = ctx.path("stage.ndjson")
     nontriv = 0
     with open(log, "w") as f:
@@ -129,7 +154,9 @@ def run(ctx):
                 f.write(json.dumps({k: v for k, v in r.items() if not k.startswith("_")}) + "\n")
             ctx.count("%s|%s|%s|%s" % (label, t, mode, r1["out"]), nontrivial=True)
     # ---- TLC decides ---------------------------------------------------------------------
+    t0 = time.time()
     r = ctx.tlc("Stage", "MC_Stage.cfg", workers=1, env={"TRACE": log}, timeout=900)
+    ctx.cov["seconds_tlc_stage"] = round(time.time() - t0, 1)
     ctx.cov["programs"] = len(work)
     ctx.cov["disagreements_checked"] = 0
     ctx.cov["exit_status_histogram"] = {}
